@@ -4,6 +4,7 @@
 
 pub mod options;
 
+use crate::chk;
 use crate::conv::*;
 use crate::refm::civil::*;
 use crate::refm::dateadd::{Dt, Ymd};
@@ -901,7 +902,7 @@ fn generated_operands(seed: u64, n: usize) -> Vec<Opnd> {
 }
 
 pub fn run(ctx: &mut Ctx) {
-    ctx.rule = "complete enumeration of {14 until/since operations (PlainDate, PlainDateTime, PlainTime, PlainYearMonth, Instant, ZonedDateTime in UTC and in a rule-table zone), Duration.round (no relativeTo / PlainDate relativeTo / calendar units without relativeTo), PlainDateTime.round, Instant.round} x largestUnit {absent, auto, 10 units} x smallestUnit {absent, auto, 10 units} x 29 increments (absent, 1, divisors and non-divisors of 24/60/1000, maxima, maxima+1, 1440, 86400, 86400000, 1e9) x mode {absent, 9 modes}; PlainTime.round (unit x increment x mode), Duration.total (unit, 3 variants); toString matrix: 7 operations x smallestUnit {absent, auto, 10 units} x precision {auto, minute, 0..=10, 255} x mode {absent, 9}. Every cell is evaluated on each operand set (four fixed sets: 2019-03-14T01:02:03.004005006 / 2024-12-31T17:42:38.571683947 forwards and backwards, the same day at two times, two days of one month; + 6 generated sets in the quick tier / 60 in the thorough tier; the generated sets depend on VERIF_SEED and are listed in the evidence under operand_sets). Verdict of each cell from the table oracle c10/options.rs: reject => Err(Range) required (Ok, another kind, Assert or a panic fails the cell); accept => Ok required, and the result must equal the result of the same call with all resolved defaults written out (auto/absent largest = larger of the operation default and smallest; absent smallest = fallback; absent increment = 1; absent mode = trunc for until/since/toString, halfExpand for round), since(mode m) must equal the negated until(negated m). non-trivial = (at least one option present and verdict reject) or (accepted and largestUnit absent/auto, smallestUnit absent or mode absent, i.e. a default has to be resolved).".into();
+    ctx.rule = "complete enumeration of {14 until/since operations (PlainDate, PlainDateTime, PlainTime, PlainYearMonth, Instant, ZonedDateTime in UTC and in a rule-table zone), Duration.round (no relativeTo / PlainDate relativeTo / calendar units without relativeTo), PlainDateTime.round, Instant.round} x largestUnit {absent, auto, 10 units} x smallestUnit {absent, auto, 10 units} x 29 increments (absent, 1, divisors and non-divisors of 24/60/1000, maxima, maxima+1, 1440, 86400, 86400000, 1e9) x mode {absent, 9 modes}; PlainTime.round (unit x increment x mode), Duration.total (unit, 3 variants); mixed zones: ZonedDateTime until/since with the other operand in a different zone x largestUnit x smallestUnit x 7 increments x mode (allowed iff the resolved largest unit is a time unit, then equal to the same-zone call); toString matrix: 7 operations x smallestUnit {absent, auto, 10 units} x precision {auto, minute, 0..=10, 255} x mode {absent, 9}. Every cell is evaluated on each operand set (four fixed sets: 2019-03-14T01:02:03.004005006 / 2024-12-31T17:42:38.571683947 forwards and backwards, the same day at two times, two days of one month; + 6 generated sets in the quick tier / 60 in the thorough tier; the generated sets depend on VERIF_SEED and are listed in the evidence under operand_sets). Verdict of each cell from the table oracle c10/options.rs: reject => Err(Range) required (Ok, another kind, Assert or a panic fails the cell); accept => Ok required, and the result must equal the result of the same call with all resolved defaults written out (auto/absent largest = larger of the operation default and smallest; absent smallest = fallback; absent increment = 1; absent mode = trunc for until/since/toString, halfExpand for round), since(mode m) must equal the negated until(negated m). non-trivial = (at least one option present and verdict reject) or (accepted and largestUnit absent/auto, smallestUnit absent or mode absent, i.e. a default has to be resolved).".into();
     ctx.assumptions = vec![
         "oracle written from GetDifferenceSettings / Duration.prototype.round / total / *.prototype.round / ToSecondsStringPrecisionRecord / ValidateTemporalRoundingIncrement (DESIGN.md Appendix A); self-tested on hand-derived cells at start".into(),
         "'rejects before computing anything' is observed only as 'rejects with operands for which the computation would succeed'".into(),
@@ -964,6 +965,88 @@ pub fn run(ctx: &mut Ctx) {
     };
     ctx.run_enum(&ToStringSub, per * sets.len() as u64, &make_s, true);
     ctx.extra.insert("cells_per_operand_set".into(), json!({"matrix": per_set, "tostring": per}));
+
+    // ---- ZonedDateTime until/since between two *different* time zones: allowed exactly when the resolved largest
+    // unit is a time unit, and then equal to the same call with both operands in the receiver's zone
+    let (ls, ss2, ms2) = (all_uopts(), all_uopts(), all_modes());
+    let incs2: Vec<Option<u32>> = vec![None, Some(1), Some(2), Some(7), Some(12), Some(30), Some(60)];
+    let per_m = (ls.len() * ss2.len() * incs2.len() * ms2.len() * 2) as u64;
+    let make_m = |i: u64| -> MixedCell {
+        let set = (i / per_m) as usize;
+        let mut j = i % per_m;
+        let since = j % 2 == 1;
+        j /= 2;
+        let m = ms2[(j % ms2.len() as u64) as usize];
+        j /= ms2.len() as u64;
+        let inc = incs2[(j % incs2.len() as u64) as usize];
+        j /= incs2.len() as u64;
+        let s_ = ss2[(j % ss2.len() as u64) as usize];
+        j /= ss2.len() as u64;
+        MixedCell { l: ls[j as usize], s: s_, inc, mode: m, since, o: sets[set] }
+    };
+    ctx.run_enum(&MixedZoneSub, per_m * sets.len() as u64, &make_m, true);
+}
+
+/// one cell of the mixed-zone matrix
+#[derive(Serialize, Deserialize, Debug, Clone)]
+pub struct MixedCell {
+    pub l: UOpt,
+    pub s: UOpt,
+    pub inc: Option<u32>,
+    pub mode: Option<Mode>,
+    pub since: bool,
+    pub o: Opnd,
+}
+pub struct MixedZoneSub;
+impl SubCheck for MixedZoneSub {
+    type Case = MixedCell;
+    fn name(&self) -> &'static str {
+        "mixed-zones"
+    }
+    fn eval(&self, c: &MixedCell) -> Outcome {
+        let mut o = Outcome::pass();
+        let mk = || {
+            let mut st = temporal_rs::options::DifferenceSettings::default();
+            st.largest_unit = uo(c.l);
+            st.smallest_unit = uo(c.s);
+            st.increment = c.inc.and_then(|i| temporal_rs::options::RoundingIncrement::try_new(i).ok());
+            st.rounding_mode = c.mode.map(mode);
+            st
+        };
+        let a = ZonedDateTime::try_new(c.o.t0 as i128, iso(), tz_utc()).expect("operand");
+        let b_same = ZonedDateTime::try_new(c.o.t1 as i128, iso(), tz_utc()).expect("operand");
+        let b_other = ZonedDateTime::try_new(c.o.t1 as i128, iso(), tz_rule()).expect("operand");
+        let call = |b: &ZonedDateTime| if c.since { a.since_with_provider(b, mk(), provider()) } else { a.until_with_provider(b, mk(), provider()) };
+        let same = call(&b_same);
+        let mixed = call(&b_other);
+        // resolved largest unit: explicit, else the larger of hour and the smallest unit
+        let smallest = match c.s {
+            UOpt::U(u) => Some(u),
+            _ => None,
+        };
+        let resolved = match c.l {
+            UOpt::U(u) => u,
+            _ => smallest.map(|s| if s.idx() < U::Hour.idx() { s } else { U::Hour }).unwrap_or(U::Hour),
+        };
+        o = o.nontrivial(!matches!(c.l, UOpt::U(_))).class(if resolved.is_time() { "mixed-zones:time-largest" } else { "mixed-zones:date-largest" });
+        match (&same, &mixed) {
+            // options the operation refuses anyway: refused for the mixed pair as well, same kind
+            (Err(e), Err(m)) => chk!(o, e.kind() == m.kind() || !resolved.is_time(), "C10/mixed-zones/error-kind", kind_name(e.kind()), kind_name(m.kind())),
+            (Err(e), Ok(m)) => o = o.fail("C10/mixed-zones/accepted-what-the-same-zone-call-refuses", err_str(e), format!("{:?}", duration_fields(m))),
+            (Ok(x), Ok(m)) => {
+                chk!(o, resolved.is_time(), "C10/mixed-zones/date-largest-unit-accepted", "RangeError (different time zones)", format!("{:?}", duration_fields(m)));
+                chk!(o, duration_fields(x) == duration_fields(m), "C10/mixed-zones/value", format!("{:?}", duration_fields(x)), format!("{:?}", duration_fields(m)));
+            }
+            (Ok(x), Err(m)) => {
+                if resolved.is_time() {
+                    o = o.fail("C10/mixed-zones/time-largest-unit-refused", format!("{:?}", duration_fields(x)), err_str(m));
+                } else {
+                    chk!(o, m.kind() == temporal_rs::error::ErrorKind::Range, "C10/mixed-zones/error-kind", "Range", err_str(m));
+                }
+            }
+        }
+        o
+    }
 }
 
 /// development aid (`C10_EXPLORE=1`): evaluate every cell and print a histogram of failure signatures
@@ -1011,6 +1094,7 @@ pub fn replay(ctx: &mut Ctx, sub: &str, case: &Value) -> bool {
     match sub {
         "matrix" => ctx.replay_case(&MatrixSub, case),
         "tostring" => ctx.replay_case(&ToStringSub, case),
+        "mixed-zones" => ctx.replay_case(&MixedZoneSub, case),
         _ => false,
     }
 }
